@@ -51,16 +51,17 @@ Definition table := list alt.
 
 (* precedence of the first alternative of kind k listing s, when the alternatives left have
    precedences n, n-1, ... *)
-Fixpoint lookup (k : kind) (s : sym) (t : table) (n : nat) : option nat :=
+Fixpoint lookup (k : kind) (s : sym) (t : table) (n : nat) : option (nat * label) :=
   match t with
   | [] => None
-  | a :: t' => if kind_eqb (a_kind a) k && existsb (sym_eqb s) (a_ops a) then Some n
+  | a :: t' => if kind_eqb (a_kind a) k && existsb (sym_eqb s) (a_ops a) then Some (n, a_label a)
                else lookup k s t' (pred n)
   end.
-Definition ppre (t : table) (s : sym) : option nat := lookup KPrefix s t (length t).  (* operand level of prefix op *)
-Definition pbin (t : table) (s : sym) : option nat := lookup KBinary s t (length t).  (* level of binary op *)
-Definition ppow (t : table) (s : sym) : bool :=
-  match lookup KPrimBin s t (length t) with Some _ => true | None => false end.
+(* (level, label of the alternative = which listener handler fires) *)
+Definition ppre (t : table) (s : sym) : option (nat * label) := lookup KPrefix s t (length t).  (* operand level of prefix op *)
+Definition pbin (t : table) (s : sym) : option (nat * label) := lookup KBinary s t (length t).  (* level of binary op *)
+Definition ppow (t : table) (s : sym) : option label :=
+  match lookup KPrimBin s t (length t) with Some (_, l) => Some l | None => None end.
 
 (* the table of Modelica.g4:421-430 as of the verified tree; the theorems are stated for every
    table that agrees with this one on ppre/pbin/ppow (tab_ok), run/C03/Tie_C03.v checks the
@@ -76,11 +77,13 @@ Definition g4 : table :=
     mkAlt KBinary  [SOr] LOr;
     mkAlt KAtom    [] LPrimary ].
 
-Definition opt_nat_eqb (a b : option nat) : bool :=
-  match a, b with Some x, Some y => x =? y | None, None => true | _, _ => false end.
+Definition opt_nl_eqb (a b : option (nat * label)) : bool :=
+  match a, b with Some (x, l), Some (y, m) => (x =? y) && label_eqb l m | None, None => true | _, _ => false end.
+Definition opt_l_eqb (a b : option label) : bool :=
+  match a, b with Some l, Some m => label_eqb l m | None, None => true | _, _ => false end.
 Definition tab_ok (t : table) : bool :=
-  forallb (fun s => opt_nat_eqb (ppre t s) (ppre g4 s) && opt_nat_eqb (pbin t s) (pbin g4 s)
-                    && Bool.eqb (ppow t s) (ppow g4 s)) all_syms.
+  forallb (fun s => opt_nl_eqb (ppre t s) (ppre g4 s) && opt_nl_eqb (pbin t s) (pbin g4 s)
+                    && opt_l_eqb (ppow t s) (ppow g4 s)) all_syms.
 
 Definition alt_eqb (a b : alt) : bool :=
   kind_eqb (a_kind a) (a_kind b) && label_eqb (a_label a) (a_label b)
@@ -110,6 +113,69 @@ Definition num_value (n : numtok) : value :=
 (* exitPrimary_string: val[1:-1], escape sequences are NOT decoded (kept raw) *)
 Definition str_value (raw : string) : value := VStr raw.
 
+
+(* ---- the listener table (T2): what parser.py's exit* handlers do, re-read from the source on every run ---- *)
+Inductive opsrc := OpText | OpLit (s : sym).       (* operator=ctx.op.text  |  operator="not"/"and"/"or" *)
+Inductive accessor := AccExpr | AccPrimary.        (* operands from ctx.expr() | ctx.primary() *)
+Record lrow := mkRow { r_label : label; r_op : opsrc; r_acc : accessor; r_rev : bool (* operands reversed *) }.
+Definition pslice := (option Z * option Z * option Z)%type.     (* a Python slice [a:b:c] *)
+Inductive numconv := NumIntThenFloat | NumFloat.    (* try int(text) except ValueError: float(text)  |  float(text) *)
+Record ltable := mkLt {
+  lt_rows : list lrow;                 (* exitExpr_signed/exp/mul/add/rel/not/and/or *)
+  lt_if_conds : pslice;                (* conditions  = all_expr[:-1:2] *)
+  lt_if_blocks1 : pslice;              (* expressions = all_expr[1::2] + ... *)
+  lt_if_blocks2 : pslice;              (*               ... + all_expr[-1:]  *)
+  lt_num : numconv;                    (* exitPrimary_unsigned_number *)
+  lt_str : pslice;                     (* exitPrimary_string: val[1:-1] *)
+  lt_pass : bool                       (* exitExpr_primary, exitExpression_simple, exitSimple_expression (1 expr),
+                                          exitPrimary_output_expression_list (1 element) pass the child through *)
+}.
+Definition std_lt : ltable :=
+  mkLt [ mkRow LSigned OpText AccExpr false; mkRow LExp OpText AccPrimary false; mkRow LMul OpText AccExpr false;
+         mkRow LAdd OpText AccExpr false; mkRow LRel OpText AccExpr false; mkRow LNot (OpLit SNot) AccExpr false;
+         mkRow LAnd (OpLit SAnd) AccExpr false; mkRow LOr (OpLit SOr) AccExpr false ]
+       (None, Some (-1)%Z, Some 2%Z) (Some 1%Z, None, Some 2%Z) (Some (-1)%Z, None, None)
+       NumIntThenFloat (Some 1%Z, Some (-1)%Z, None) true.
+
+Fixpoint find_row (l : label) (rs : list lrow) : option lrow :=
+  match rs with [] => None | r :: rs' => if label_eqb (r_label r) l then Some r else find_row l rs' end.
+Definition op_of (lt : ltable) (l : label) (s : sym) : sym :=
+  match find_row l (lt_rows lt) with Some (mkRow _ (OpLit s') _ _) => s' | _ => s end.
+Definition rev_of (lt : ltable) (l : label) : bool :=
+  match find_row l (lt_rows lt) with Some r => r_rev r | None => false end.
+
+(* Python slicing l[a:b:c] for a positive step *)
+Definition snorm (len d : Z) (o : option Z) : Z :=
+  match o with None => d | Some z => if (z <? 0)%Z then Z.max 0 (len + z) else Z.min z len end.
+Fixpoint everyk {A} (k i : nat) (l : list A) : list A :=
+  match l with [] => [] | x :: r => if i =? 0 then x :: everyk k (pred k) r else everyk k (pred i) r end.
+Definition pyslice {A} (s : pslice) (l : list A) : list A :=
+  let '(a, b, c) := s in
+  let len := Z.of_nat (length l) in
+  let k := match c with None => 1 | Some z => Z.to_nat z end in
+  if k =? 0 then [] else
+  let lo := Z.to_nat (snorm len 0%Z a) in
+  let hi := Z.to_nat (snorm len len b) in
+  everyk k 0 (firstn (hi - lo) (skipn lo l)).
+Definition oz_eqb (a b : option Z) : bool :=
+  match a, b with Some x, Some y => Z.eqb x y | None, None => true | _, _ => false end.
+Definition pslice_eqb (a b : pslice) : bool :=
+  let '(a1, a2, a3) := a in let '(b1, b2, b3) := b in oz_eqb a1 b1 && oz_eqb a2 b2 && oz_eqb a3 b3.
+
+(* table-driven conversions; with the standard entries they ARE num_value / str_value (by computation) *)
+Definition num_value_lt (lt : ltable) (n : numtok) : value :=
+  match lt_num lt with
+  | NumIntThenFloat => num_value n
+  | NumFloat => let fd := match n_frac n with Some d => d | None => [] end in
+                VReal (Qmult (inject_Z (Z.of_N (horner (n_int n ++ fd))))
+                             (Qpower (10 # 1) (exp_of (n_exp n) - Z.of_nat (length fd))))
+  end.
+Definition dq : Ascii.ascii := Ascii.ascii_of_nat 34.
+Definition str_value_lt (lt : ltable) (raw : string) : value :=
+  if pslice_eqb (lt_str lt) (lt_str std_lt) then str_value raw
+  else VStr (String.string_of_list_ascii
+               (pyslice (lt_str lt) (dq :: String.list_ascii_of_string raw ++ [dq]))).
+
 (* ---- tokens and trees ---- *)
 Inductive tok :=
   | TId (x : positive) | TNum (n : numtok) | TStr (raw : string) | TTrue | TFalse
@@ -131,6 +197,16 @@ Definition last1 {A} (l : list A) : list A := match rev l with a :: _ => [a] | [
 Definition mk_if (all : list expr) : expr :=
   IfE (every2 (removelast all)) (every2 (tl all) ++ last1 all).
 
+Definition mk_if_lt (lt : ltable) (all : list expr) : expr :=
+  if pslice_eqb (lt_if_conds lt) (lt_if_conds std_lt) && pslice_eqb (lt_if_blocks1 lt) (lt_if_blocks1 std_lt)
+     && pslice_eqb (lt_if_blocks2 lt) (lt_if_blocks2 std_lt)
+  then mk_if all
+  else IfE (pyslice (lt_if_conds lt) all) (pyslice (lt_if_blocks1 lt) all ++ pyslice (lt_if_blocks2 lt) all).
+(* exitExpr_signed / exitExpr_not;  exitExpr_exp/mul/add/rel/and/or *)
+Definition build_un (lt : ltable) (l : label) (s : sym) (e : expr) : expr := Un (op_of lt l s) e.
+Definition build_bin (lt : ltable) (l : label) (s : sym) (a b : expr) : expr :=
+  if rev_of lt l then Bin (op_of lt l s) b a else Bin (op_of lt l s) a b.
+
 Inductive res := RE (e : expr) | RL (l : list expr).
 Inductive mode :=
   | MExpression                    (* rule expression *)
@@ -142,6 +218,7 @@ Inductive mode :=
 
 Section Parser.
   Variable t : table.
+  Variable lt : ltable.
   Definition R := option (res * list tok).
 
   (* one unfolding of the recursive-descent parser; `self` = the recursive calls *)
@@ -150,7 +227,7 @@ Section Parser.
     | MExpression =>
         match ts with
         | TIf :: r => match self (MIf []) r with
-                      | Some (RL all, r') => Some (RE (mk_if all), r')
+                      | Some (RL all, r') => Some (RE (mk_if_lt lt all), r')
                       | _ => None
                       end
         | _ => self (MExpr 0) ts       (* simple_expression without ':' *)
@@ -173,21 +250,23 @@ Section Parser.
         match ts with
         | TSym s :: r =>                                     (* expr_signed / expr_not *)
             match ppre t s with
-            | Some p => match self (MExpr p) r with
-                        | Some (RE e, r') => self (MLoop lvl (Un s e)) r'     (* exitExpr_signed / exitExpr_not *)
-                        | _ => None
-                        end
+            | Some (p, l) => match self (MExpr p) r with
+                             | Some (RE e, r') => self (MLoop lvl (build_un lt l s e)) r'   (* exitExpr_signed / exitExpr_not *)
+                             | _ => None
+                             end
             | None => None
             end
         | _ =>
             match self MPrimary ts with
             | Some (RE a, TSym s :: r) =>
-                if ppow t s then                              (* expr_exp : primary op primary *)
+                match ppow t s with
+                | Some l =>                                   (* expr_exp : primary op primary *)
                   match self MPrimary r with
-                  | Some (RE b, r') => self (MLoop lvl (Bin s a b)) r'        (* exitExpr_exp *)
+                  | Some (RE b, r') => self (MLoop lvl (build_bin lt l s a b)) r'   (* exitExpr_exp *)
                   | _ => None
                   end
-                else self (MLoop lvl a) (TSym s :: r)         (* expr_primary *)
+                | None => self (MLoop lvl a) (TSym s :: r)    (* expr_primary *)
+                end
             | Some (RE a, r) => self (MLoop lvl a) r
             | _ => None
             end
@@ -196,10 +275,10 @@ Section Parser.
         match ts with
         | TSym s :: r =>
             match pbin t s with
-            | Some p =>
+            | Some (p, l) =>
                 if lvl <=? p then                             (* precpred(_ctx, p) *)
                   match self (MExpr (S p)) r with
-                  | Some (RE e2, r') => self (MLoop lvl (Bin s acc e2)) r'    (* exitExpr_mul/add/rel/and/or *)
+                  | Some (RE e2, r') => self (MLoop lvl (build_bin lt l s acc e2)) r'   (* exitExpr_mul/add/rel/and/or *)
                   | _ => None
                   end
                 else Some (RE acc, ts)
@@ -209,8 +288,8 @@ Section Parser.
         end
     | MPrimary =>
         match ts with
-        | TNum n :: r => Some (RE (Lit (num_value n)), r)
-        | TStr s :: r => Some (RE (Lit (str_value s)), r)
+        | TNum n :: r => Some (RE (Lit (num_value_lt lt n)), r)
+        | TStr s :: r => Some (RE (Lit (str_value_lt lt s)), r)
         | TTrue :: r => Some (RE (Lit (VBool true)), r)
         | TFalse :: r => Some (RE (Lit (VBool false)), r)
         | TId x :: TLp :: r =>                                (* primary_function *)
@@ -296,9 +375,9 @@ Fixpoint matches (e : expr) (o : oexpr) {struct e} : bool :=
 (* a correspondence case: the regenerated table, the tokens, what the real parser returned
    (None = the text was rejected / no tree) *)
 Definition case := (list tok * option oexpr)%type.
-Definition check_with (t : table) (c : case) : bool :=
+Definition check_with (t : table) (lt : ltable) (c : case) : bool :=
   let '(ts, obs) := c in
-  match parse_antlr t (S (2 * length ts) * 4) ts, obs with
+  match parse_antlr t lt (S (2 * length ts) * 4) ts, obs with
   | Some e, Some o => matches e o
   | None, None => true
   | _, _ => false
